@@ -291,23 +291,25 @@ def chain (ls : List SLine) (body : List Rec) (a : Nat) :
       (⟨name, fileName ls callFile, some callLine⟩ :: r.1, r.2)
     | none => ([], name)
 
+def bestStep (a : Nat) (best : Option RSym) (s : RSym) : Option RSym :=
+  if s.addr ≤ a then
+    match best with
+    | none => some s
+    | some b => if b.addr < s.addr then some s else some b
+  else best
+
 /-- the symbol with the greatest address ≤ a -/
-def bestSym (syms : List RSym) (a : Nat) : Option RSym :=
-  syms.foldl (fun best s =>
-    if s.addr ≤ a then
-      match best with
-      | none => some s
-      | some b => if b.addr < s.addr then some s else some b
-    else best) none
+def bestSym (syms : List RSym) (a : Nat) : Option RSym := syms.foldl (bestStep a) none
+
+def nextStep (x : Nat) (best : Option Nat) (s : RSym) : Option Nat :=
+  if x < s.addr then
+    match best with
+    | none => some s.addr
+    | some b => if s.addr < b then some s.addr else some b
+  else best
 
 /-- the least symbol address above `x` -/
-def nextAddr (syms : List RSym) (x : Nat) : Option Nat :=
-  syms.foldl (fun best s =>
-    if x < s.addr then
-      match best with
-      | none => some s.addr
-      | some b => if s.addr < b then some s.addr else some b
-    else best) none
+def nextAddr (syms : List RSym) (x : Nat) : Option Nat := syms.foldl (nextStep x) none
 
 def readDirectly (s : SymFile) (a : Nat) : Look :=
   let syms := readSyms s.lines
